@@ -276,6 +276,9 @@ func NewPublicKeyFromBytes(bts []byte) (*PublicKey, error) {
 	if err != nil {
 		return nil, err
 	}
+	if pubk.N == nil {
+		return nil, errors.New("public key has no modulus")
+	}
 	keylength := pubk.N.BitLen()
 	if sysparam, ok := DefaultSystemParameters[keylength]; ok {
 		pubk.Params = sysparam
@@ -299,22 +302,14 @@ func NewPublicKeyFromFile(filename string) (*PublicKey, error) {
 		return nil, err
 	}
 	defer common.Close(f)
-	pubk := &PublicKey{}
 
 	b, err := io.ReadAll(f)
 	if err != nil {
 		return nil, err
 	}
 
-	err = xml.Unmarshal(b, pubk)
-	if err != nil {
-		return nil, err
-	}
-	pubk.Params = DefaultSystemParameters[pubk.N.BitLen()]
-	if err = pubk.parseRevocationKey(); err != nil {
-		return nil, err
-	}
-	return pubk, nil
+	// same checks as for keys read from memory (modulus present, supported key length)
+	return NewPublicKeyFromBytes(b)
 }
 
 func (pubk *PublicKey) parseRevocationKey() error {
